@@ -397,6 +397,18 @@ def run(tier):
                 "/wap/../secret.txt", "/%77ap/a.txt", "/wap/wap/a.txt"]:
         data = b"GET " + tgt.encode() + b" HTTP/1.0\r\n\r\n"
         requests.append(("wap", "<raw>" + tgt, 1, False, data, False, False))
+    # WAP clients recognised by their headers instead of the /wap prefix: the request target is then an ordinary path,
+    # which may still START with the prefix string (/wap-private is not below /wap)
+    WAPHDR = b"Accept: text/html, text/vnd.wap.wml\r\nX-Wap-Profile: \"http://wap.example/ua.xml\"\r\n"
+    for tgt in ["/wap2/secret.txt", "/wap2/secret.txt.abstract", "/wap-private/secret.txt", "/wap-private", "/wap%2Dprivate/secret%2Etxt",
+                "/wap2", "/wapdir1/c.txt", "/wapdir1", "/wap../secret.txt", "/wap/../secret.txt", "/wap", "/wap/", "/wap/a.txt", "/a.txt",
+                "/wap/wap2/secret.txt", "/wap/wap-private/secret.txt", "/wap//2/secret.txt"]:
+        for hdr in (WAPHDR, b"Accept: text/vnd.wap.wml\r\n", b"Accept: */*, text/vnd.wap.wml\r\nX-Up-Devcap-Max-Pdu: 1400\r\n"):
+            data = b"GET " + tgt.encode() + b" HTTP/1.0\r\n" + hdr + b"\r\n"
+            requests.append(("wap", "<raw-hdr>" + tgt, 1, False, data, False, False))
+    for (proto, s, layers, force, data, tls, hostile) in list(requests):
+        if proto == "http" and hostile and data.endswith(b"\r\n\r\n") and rng.random() < 0.5:
+            requests.append(("wap", s, layers, force, data[:-2] + WAPHDR + b"\r\n", tls, hostile))
     tree = base_tree(rng)
     reqs_json = [{"data": gen.lat(d), "tls": t, "trace": True} for (_, _, _, _, d, t, _) in requests]
     worlds = []
